@@ -60,3 +60,31 @@ Proof. reflexivity. Qed.
 Example C09_checker_accepts :
   well_bracketed (KSeq KAcq (KSeq (KLoop KSkip (KIf (KShared "x") (KSeq KRel (KReturn KSkip)) KContinue) KSkip) (KSeq KRel (KReturn KSkip)))) = true.
 Proof. reflexivity. Qed.
+
+(** ---- non-vacuity of the instantiated theorem: the initialised allocator of Props/C01_examples.v, two
+    callers that each allocate one frame, interleaved; both get different frames ---- *)
+From Coq Require Import NArith.
+From FF Require Import Pmm.Bitmap Pmm.TopProofs Sync.AllocTasks Sync.AllocTasksProofs Props.C01_examples.
+
+Definition plan2 (t : nat) : list op := match t with 0 | 1 => [OpAlloc] | _ => [] end.
+
+Example C09_plan_nonvacuous : forall t, history_ok pm_map pm_kstart pm_kend (early_frames (snd pm_init_result)) (plan2 t).
+Proof. intros [|[|t]] f Hf; cbn in Hf; try contradiction; destruct Hf as [Hf|[]]; discriminate. Qed.
+
+Example C09_two_callers_nonvacuous :
+  exists g, star (cstep AllocTasks.code) (start pm_a0 plan2) g /\ owner g = None /\
+            exists f1 f2, hist g = [(0, RAlloc (Some f1)); (1, RAlloc (Some f2))] /\ f1 <> f2.
+Proof.
+  eexists. split.
+  - eapply star_step. eapply star_step. eapply star_step. eapply star_step.
+    eapply star_step. eapply star_step. eapply star_step. eapply star_step. apply star_refl.
+    + eapply (CAcq AllocTasks.code _ 0); reflexivity.
+    + eapply (CShared AllocTasks.code _ 0); reflexivity.
+    + eapply (CRel AllocTasks.code _ 0); reflexivity.
+    + eapply (CAcq AllocTasks.code _ 1); reflexivity.
+    + eapply (CShared AllocTasks.code _ 1); reflexivity.
+    + eapply (CDone AllocTasks.code _ 0); reflexivity.
+    + eapply (CRel AllocTasks.code _ 1); reflexivity.
+    + eapply (CDone AllocTasks.code _ 1); reflexivity.
+  - split; [reflexivity|]. vm_compute. eexists. eexists. split; [reflexivity|]. discriminate.
+Qed.
